@@ -152,6 +152,50 @@ fn open(bytes: &[u8], strict: bool) -> std::io::Result<Cf> {
 }
 
 /// every read-only call; returns the number of calls made
+/// Read-only calls on a directory of many thousand entries: everything here is linear in the number of entries.
+fn big_read_workload(cf: &mut Cf) -> u64 {
+    let mut calls = 3u64;
+    let _ = cf.version();
+    let _ = cf.root_entry();
+    let mut n = 0u64;
+    let mut last = None;
+    let mut mid = None;
+    for e in cf.walk() {
+        n += 1;
+        if n % 1000 == 500 {
+            mid = Some(e.path().to_path_buf());
+        }
+        last = Some((e.path().to_path_buf(), e.is_stream()));
+        if n > 200_000 {
+            break;
+        }
+    }
+    calls += n;
+    calls += cf.read_root_storage().take(200_000).count() as u64;
+    for p in mid.iter().chain(last.iter().map(|(p, _)| p)) {
+        let _ = cf.entry(p);
+        let _ = cf.exists(p);
+        let _ = cf.is_stream(p);
+        let _ = cf.is_storage(p);
+        let _ = cf.exists(p.join("x"));
+        if let Ok(it) = cf.read_storage(p) {
+            let _ = it.take(10).count();
+        }
+        if let Ok(it) = cf.walk_storage(p) {
+            let _ = it.take(10).count();
+        }
+        calls += 7;
+    }
+    if let Some((p, true)) = last {
+        if let Ok(mut s) = cf.open_stream(&p) {
+            let mut buf = Vec::new();
+            let _ = s.read_to_end(&mut buf);
+            calls += 2;
+        }
+    }
+    calls
+}
+
 fn read_workload(cf: &mut Cf) -> u64 {
     let mut calls = 0u64;
     let _ = cf.version();
@@ -453,11 +497,27 @@ fn main() {
         let mut panic: Value = Value::Null;
         let mut calls = 0u64;
         if mode == "read" {
+            let big = case["big"].as_bool() == Some(true);
             for (label, strict) in [("permissive", false), ("strict", true)] {
-                let r = catch_unwind(AssertUnwindSafe(|| match open(&bytes, strict) {
-                    Ok(mut cf) => ("ok".to_string(), read_workload(&mut cf)),
-                    Err(e) => (format!("err:{:?}", e.kind()), 0),
-                }));
+                let r = if big {
+                    // a directory of many thousand entries: the calls run on a thread with the default 2 MiB stack of a
+                    // Rust thread (recursion proportional to the input overflows it: the process dies, which the
+                    // orchestrator reports for the journalled case), with a workload linear in the number of entries
+                    let b2 = bytes.clone();
+                    std::thread::Builder::new()
+                        .stack_size(2 << 20)
+                        .spawn(move || match open(&b2, strict) {
+                            Ok(mut cf) => ("ok".to_string(), big_read_workload(&mut cf)),
+                            Err(e) => (format!("err:{:?}", e.kind()), 0),
+                        })
+                        .expect("spawn")
+                        .join()
+                } else {
+                    catch_unwind(AssertUnwindSafe(|| match open(&bytes, strict) {
+                        Ok(mut cf) => ("ok".to_string(), read_workload(&mut cf)),
+                        Err(e) => (format!("err:{:?}", e.kind()), 0),
+                    }))
+                };
                 match r {
                     Ok((st, n)) => {
                         opened[label] = json!(st);
